@@ -1,6 +1,7 @@
 """C17: the reverse proxy only talks to its upstream and maps URLs faithfully.
 Real ProxyHandler + real GeminiClient; only loop.create_connection is replaced by a recorder."""
 import asyncio
+from pathlib import Path
 from common import *
 import urlgen, urlimpl
 
@@ -64,7 +65,8 @@ def run(tier, seed):
     res = Result()
     res.rule = ("proxy configurations (upstream with/without port, path, trailing slash, IPv4/IPv6 literal; prefix with/without trailing slash; strip on/off) x "
                 "request URLs built around the prefix ('@', ':', '//', ';params', encoded slashes, dot segments, empty path, queries); "
-                "non-trivial = distinct (config, request) for which the proxy opened an upstream connection")
+                "non-trivial = distinct (config, request) for which the proxy opened an upstream connection; plus the same through ServerConfig.locations -> get_location_router() "
+                "with 2-4 proxy locations, some sharing an upstream, differing in prefix / strip_prefix")
     n = 4000 if tier == "quick" else 60000
     cfgs = {}
     records = []
@@ -131,6 +133,87 @@ def run(tier, seed):
             res.disagreements.append({"driver": "proxy", "case": {"cfg": key, "request": line}, "model": mm, "impl": io})
     res.sample({"cfg": records[0][0], "request": records[0][3], "upstream_url": iobs[0][0], "connection": iobs[0][1]})
     res.sample({"cfg": records[-1][0], "request": records[-1][3], "upstream_url": iobs[-1][0], "connection": iobs[-1][1]})
+    # ---- the same through the configuration layer: ServerConfig.locations -> get_location_router() -> Router.route.
+    # Several proxy locations, some sharing one upstream (and timeout) but differing in prefix / strip_prefix: each request
+    # must be forwarded by the first location whose prefix matches, with THAT location's mapping.
+    from nauyaca.server.config import ServerConfig
+    from nauyaca.server.location import LocationConfig, HandlerType
+    import tempfile as _tf
+    lrecords = []
+    async def go_locations():
+        loop = asyncio.get_running_loop()
+        docroot = Path(scratch_dir("nv-c17-"))
+        try:
+            for _ in range(40 if tier == "quick" else 600):
+                ups = [gen_proxy_cfg(rng)[0] for _ in range(2)]
+                locs = []
+                for _ in range(rng.randint(2, 4)):
+                    up = rng.choice(ups)
+                    prefix = rng.choice(["/api/", "/v2", "/v2/", "/mirror/", "/a", "/api/v1/", "/"])
+                    strip = rng.random() < 0.6
+                    try:
+                        locs.append(LocationConfig(prefix=prefix, handler_type=HandlerType.PROXY, upstream=up, strip_prefix=strip, timeout=2.0))
+                    except (ValueError, TypeError):
+                        pass
+                if len(locs) < 2: continue
+                try:
+                    cfg = ServerConfig(host="127.0.0.1", port=1965, document_root=docroot, locations=locs)
+                    router = cfg.get_location_router()
+                except Exception as e:
+                    lrecords.append(("config-error", repr(e)[:200])); continue
+                for _ in range(6):
+                    loc_pick = rng.choice(locs)
+                    line = gen_request(rng, loc_pick.prefix)
+                    try: req = GeminiRequest.from_line(line)
+                    except ValueError: continue
+                    first = next((l for l in locs if req.path.startswith(l.prefix)), None)
+                    if first is None: continue
+                    conns = []
+                    async def fake_cc(factory, host=None, port=None, ssl=None, server_hostname=None, **kw):
+                        proto = factory(); tr = ClientTransport()
+                        conns.append({"host": host, "port": port, "tr": tr})
+                        proto.connection_made(tr)
+                        loop.call_soon(lambda: (proto.data_received(b"20 text/plain\r\nhi"), proto.connection_lost(None)))
+                        return tr, proto
+                    import urllib.parse
+                    urllib.parse.clear_cache(); del urlimpl._calls[:]
+                    loop.create_connection = fake_cc
+                    try:
+                        r = router.route(req)
+                        if asyncio.iscoroutine(r): r = await r
+                    except Exception as e:
+                        r = None
+                    finally:
+                        del loop.create_connection
+                    lrecords.append(((first.upstream, first.prefix, first.strip_prefix), [(l.upstream, l.prefix, l.strip_prefix) for l in locs], req.path, req.query, line, conns, list(urlimpl._calls)))
+        finally:
+            shutil.rmtree(docroot, ignore_errors=True)
+    asyncio.run(go_locations())
+    lcases, lmeta = [], []
+    for rec in lrecords:
+        if rec[0] == "config-error": continue
+        key, locs, path, query, line, conns, calls = rec
+        table = [[h, [] if m is None else [m]] for h, m in calls]
+        lcases.append(("proxy", enc([key[0], key[1], key[2], path, query, table]))); lmeta.append(rec)
+    lout = run_model_parallel(lcases)
+    for rec, mo_ in zip(lmeta, lout):
+        key, locs, path, query, line, conns, calls = rec
+        m = dec(mo_)
+        if enc(m[1]) == OOM: res.out_of_model += 1; continue
+        res.evaluations += 1; res.count("via-location-router")
+        res.nontriv(("locations", str(locs), line))
+        if conns:
+            c = conns[0]; sent = b"".join(c["tr"].written)
+            linesent = sent[:-2].decode("utf-8", "replace") if sent.endswith(b"\r\n") else sent.decode("utf-8", "replace") + "<<no CRLF>>"
+            obs = ["connect", c["host"], c["port"], linesent]
+        else:
+            obs = ["refused", "x"]
+        want = pretty(m)[1]
+        if (obs[0] == "refused") != (want[0] == "refused") or (obs[0] == "connect" and enc(obs) != enc(m[1])):
+            res.violations.append({"clause": "each location forwards with its own upstream, prefix and strip_prefix (first matching location)",
+                                   "signature": "C17:location-router",
+                                   "case": {"locations": locs, "request": line, "first_matching_location": key},
+                                   "trace": {"observed": obs, "expected": want}})
     mo = run_model_parallel(mon)
     for m, me in zip(mo, meta):
         if m != enc(True):
